@@ -191,7 +191,18 @@ def snake_input_fields(d):
 
 # strings a custom scalar may well hold that LOOK numeric (none is the repr of a float or a plain integer text:
 # those are printed as numbers on purpose, pinned by tests/test_utilities/test_ast_node_from_value.py)
-NUMERIC_LOOKING = ["007", "1e3", "1.50", "nan", " 7 ", "inf", "-007", "1E3", "+5", ".5", "Infinity", "1_0"]
+NUMERIC_LOOKING = ["007", "1e3", "1.50", "nan", " 7 ", "inf", "-007", "1E3", "+5", ".5", "Infinity", "1_0",
+                   "7", "42.42", "-0", "1e+20", "2147483648"]   # (the last five: reprs of numbers, see I11)
+
+
+def typed_parse_literal(node, variables=None):
+    """a custom scalar which keeps int, float and string literals apart (any JSON-like scalar does)"""
+    from py_gql.lang import ast as A
+    if isinstance(node, A.IntValue):
+        return int(node.value)
+    if isinstance(node, A.FloatValue):
+        return float(node.value)
+    return node.value
 
 
 def add_numeric_scalar_defaults(d, rng):
@@ -271,7 +282,8 @@ def build_code(d, enum_map=None, subclass=False, pynames=False):
             continue
         k = t["kind"]
         if k == "scalar":
-            reg[n] = ScalarType(n, serialize=lambda x: x, parse=lambda x: x, description=t["desc"])
+            reg[n] = ScalarType(n, serialize=lambda x: x, parse=lambda x: x, description=t["desc"],
+                                parse_literal=typed_parse_literal if n == "Code" else None)
         elif k == "enum":
             m = enum_map.get(n, {})
             reg[n] = EnumType(n, [EnumValue(v["name"], value=m.get(v["name"], v["name"]), description=v["desc"],
